@@ -13,7 +13,7 @@
  *                  file names and lines of both ends); work / critical path (heaviest path along the file's explicit
  *                  edges) / node counts of the file equal the oracle's
  *   chronological: the library's dr_pi_dag_chronological_traverse with a counting traverser
- *   shrink-totals: dr_copy_pi_dag under each of the 18 conversion settings; work, critical path (recomputed along the
+ *   shrink-totals: dr_copy_pi_dag under each of the 20 conversion settings; work, critical path (recomputed along the
  *                  explicit edges), node and edge totals of the converted DAG == those of the DAG it was made from;
  *                  converted DAGs are also validated and traversed, and - when their input is the uncontracted
  *                  recording, of which every other input is a contraction - written with dr_gen_pi_dag and read back
@@ -26,7 +26,7 @@
 #include "dag_sim.h"
 
 typedef struct { unsigned long long cmax, umin; long cc; } conv_t;
-static conv_t CONV[18]; static int NCONV;
+static conv_t CONV[20]; static int NCONV;
 
 /* ------------------------------------------------------------------ independent helpers over dr_pi_dag */
 static int is_leaf(const dr_pi_dag_node * x) { return x->info.kind < dr_dag_node_kind_section || x->subgraphs_begin_offset == x->subgraphs_end_offset; }
@@ -386,7 +386,9 @@ static void component_case(void) {
 int main(int argc, char ** argv) {
   static const unsigned long long CM[3] = { 0, 5, CM_INF }, UM[2] = { 0, 5 }; static const long CC[3] = { 0, 3, 100 };
   for (int a = 0; a < 3; a++) for (int b = 0; b < 2; b++) for (int c = 0; c < 3; c++) CONV[NCONV++] = (conv_t){ CM[a], UM[b], CC[c] };
+  /* everything below the root collapses (also subgraphs executed by several workers): the converted DAG's totals are the root's summary */
+  CONV[NCONV++] = (conv_t){ 0, CM_INF, 0 }; CONV[NCONV++] = (conv_t){ CM_INF, CM_INF, 0 };
   WANT_STAT = 0; WANT_DAG = 1;
   return dag_main(argc, argv, "C19", "c19", "E3 seqmc (serial multi-worker simulator driving the real recorder; dump / read / validate / replay / convert of every recorded DAG)",
-		  4, 4, "dump-read round trip, independent structural validation, chronological replay, conversion totals (18 conversion settings per distinct DAG)");
+		  4, 4, "dump-read round trip, independent structural validation, chronological replay, conversion totals (20 conversion settings per distinct DAG)");
 }
